@@ -344,3 +344,91 @@ Proof.
   destruct (probe_of (w_ks (s_w s))) as [|ms ds]; [discriminate H|].
   injection H as <-. rewrite fold_probe_static. cbn [ld_map]. apply map_static_overlain.
 Qed.
+
+(* ------------------------------------------------------------------ partial-correctness triples *)
+(* only runs that return normally are constrained *)
+Definition hoareR {A} (P : mst -> Prop) (m : M A) (Q : A -> mst -> Prop) : Prop :=
+  forall s a s', P s -> m s = (Ret a, s') -> Q a s'.
+
+Lemma bind_ret_inv {A B} (m : M A) (k : A -> M B) s b s2 :
+  bind m k s = (Ret b, s2) -> exists a s1, m s = (Ret a, s1) /\ k a s1 = (Ret b, s2).
+Proof.
+  unfold bind. destruct (m s) as [o s1]. destruct o as [a| | | |]; try discriminate.
+  intros H. exists a, s1. auto.
+Qed.
+
+Lemma hoare_bind {A B} P (m : M A) Q (k : A -> M B) Q' :
+  hoareR P m Q -> (forall a, hoareR (Q a) (k a) Q') -> hoareR P (bind m k) Q'.
+Proof.
+  intros Hm Hk s b s2 HP H. destruct (bind_ret_inv _ _ _ _ _ H) as (a & s1 & H1 & H2).
+  exact (Hk a s1 b s2 (Hm s a s1 HP H1) H2).
+Qed.
+
+Lemma hoare_conseq {A} (P P' : mst -> Prop) (m : M A) (Q Q' : A -> mst -> Prop) :
+  hoareR P m Q -> (forall s, P' s -> P s) -> (forall a s, Q a s -> Q' a s) -> hoareR P' m Q'.
+Proof. intros H HP HQ s a s' Hs Hr. apply HQ. eapply H; eauto. Qed.
+
+Lemma hoare_and {A} P1 P2 (m : M A) Q1 Q2 :
+  hoareR P1 m Q1 -> hoareR P2 m Q2 ->
+  hoareR (fun s => P1 s /\ P2 s) m (fun a s => Q1 a s /\ Q2 a s).
+Proof. intros H1 H2 s a s' [Hp1 Hp2] Hr. split; [eapply H1|eapply H2]; eauto. Qed.
+
+Lemma hoare_ret {A} (P : mst -> Prop) (a : A) : hoareR P (ret a) (fun _ s => P s).
+Proof. intros s b s' HP H. unfold ret in H. injection H as E1 E2. subst. exact HP. Qed.
+Lemma hoare_ret' {A} (P : mst -> Prop) (a : A) (Q : A -> mst -> Prop) :
+  (forall s, P s -> Q a s) -> hoareR P (ret a) Q.
+Proof. intros HQ s b s' HP H. unfold ret in H. injection H as E1 E2. subst. apply HQ, HP. Qed.
+Lemma hoare_fail {A} P (Q : A -> mst -> Prop) : hoareR P fail Q.
+Proof. intros s a s' _ H. discriminate H. Qed.
+Lemma hoare_panic {A} P (Q : A -> mst -> Prop) : hoareR P panic Q.
+Proof. intros s a s' _ H. discriminate H. Qed.
+Lemma hoare_diverge {A} P (Q : A -> mst -> Prop) : hoareR P diverge Q.
+Proof. intros s a s' _ H. discriminate H. Qed.
+
+Lemma hoare_guard_bind {B} P b (k : unit -> M B) Q :
+  (b = true -> hoareR P (k tt) Q) -> hoareR P (bind (guard b) k) Q.
+Proof.
+  intros H. destruct b.
+  - intros s a s' HP Hr. exact (H eq_refl s a s' HP Hr).
+  - intros s a s' _ Hr. discriminate Hr.
+Qed.
+
+Lemma hoare_get_fs_bind {B} P (k : fsT -> M B) Q :
+  (forall f, hoareR (fun s => P s /\ fsof s = f) (k f) Q) -> hoareR P (bind get_fs k) Q.
+Proof. intros H s a s' HP Hr. exact (H (fsof s) s a s' (conj HP eq_refl) Hr). Qed.
+
+Lemma hoare_pres {A} P (m : M A) : pres m -> hoareR P m (fun _ s => P s).
+Proof. intros Hm s a s' HP Hr. pose proof (Hm s) as E. rewrite Hr in E. cbn [snd] in E. subst s'. exact HP. Qed.
+
+(* a tree predicate preserved along an R-run *)
+Lemma hoare_steps {A} (R : fsT -> fsT -> Prop) (m : M A) (Pf : fsT -> Prop) :
+  steps R m -> (forall f f', R f f' -> Pf f -> Pf f') ->
+  hoareR (fun s => Pf (fsof s)) m (fun _ s => Pf (fsof s)).
+Proof.
+  intros Hm HR s a s' HP Hr. specialize (Hm s). unfold st in Hm. rewrite Hr in Hm. cbn [snd] in Hm.
+  eapply HR; eauto.
+Qed.
+
+Lemma hoare_mapM_inv {X} (I : mst -> Prop) (g : X -> M unit) l :
+  (forall x, In x l -> hoareR I (g x) (fun _ s => I s)) -> hoareR I (mapM_ g l) (fun _ s => I s).
+Proof.
+  induction l as [|x r IH]; intros H; cbn [mapM_]; [apply hoare_ret|].
+  eapply hoare_bind; [apply H; now left|]. intros u. cbv beta. apply IH. intros y Hy. apply H. now right.
+Qed.
+
+(* each element establishes its own post-condition, and no element destroys another's *)
+Lemma hoare_mapM_each {X} (Ax : X -> mst -> Prop) (g : X -> M unit) l :
+  (forall x, In x l -> hoareR (fun _ => True) (g x) (fun _ s => Ax x s)) ->
+  (forall x y, In x l -> In y l -> hoareR (Ax x) (g y) (fun _ s => Ax x s)) ->
+  hoareR (fun _ => True) (mapM_ g l) (fun _ s => forall x, In x l -> Ax x s).
+Proof.
+  induction l as [|x r IH]; intros H1 H2; cbn [mapM_].
+  - apply hoare_ret'. intros s _ y [].
+  - eapply hoare_bind; [apply H1; now left|]. intros u. cbv beta.
+    eapply hoare_conseq.
+    + apply (hoare_and (Ax x) (fun _ => True)).
+      * apply hoare_mapM_inv. intros y Hy. apply H2; [now left|now right].
+      * apply IH; [intros y Hy; apply H1; now right|intros y z Hy Hz; apply H2; now right].
+    + intros s Hs. split; [exact Hs|exact I].
+    + cbv beta. intros _ s [Hx Hr] y [<-|Hy]; [exact Hx|apply Hr, Hy].
+Qed.
